@@ -1,0 +1,57 @@
+//go:build verif
+
+// Contracts for the verifier in /verif (govc). Comment-only: no declarations.
+
+package streams
+
+//@ ghost G_closes(x interface{}) int
+//@ ghost G_isclosed(x interface{}) bool
+
+// ---------------------------------------------------------------------------------------------
+// C19: stream wrappers close their resource exactly once
+
+//@ go func reportsClosed(c io.Closer) bool { _, ok := c.(Closed); return ok && G_isclosed(c) }
+
+//@ func LogClose
+//@   property C19
+//@   safe
+//@   modifies G_closes(closer), G_isclosed(closer)
+//@   ensures old(reportsClosed(closer)) ==> err == nil && G_closes(closer) == old(G_closes(closer))   :skip_closed
+//@   ensures closer != nil && !old(reportsClosed(closer)) ==> G_closes(closer) == old(G_closes(closer)) + 1   :closes_open
+//@   ensures closer == nil ==> err == nil && G_closes(closer) == old(G_closes(closer))          :nil_is_noop
+//@   ensures G_closes(closer) == old(G_closes(closer)) || G_closes(closer) == old(G_closes(closer)) + 1   :at_most_once
+//@   ensures G_closes(closer) == old(G_closes(closer)) ==> err == nil                            :no_call_no_error
+
+//@ func TryClose
+//@   property C19
+//@   safe
+//@   modifies G_closes(closer), G_isclosed(closer)
+//@   ensures old(reportsClosed(closer)) ==> G_closes(closer) == old(G_closes(closer))   :skip_closed
+//@   ensures closer != nil && !old(reportsClosed(closer)) ==> G_closes(closer) == old(G_closes(closer)) + 1   :closes_open
+//@   ensures G_closes(closer) == old(G_closes(closer)) || G_closes(closer) == old(G_closes(closer)) + 1   :at_most_once
+
+//@ func (ns *SafeConnection) Close
+//@   property C19
+//@   safe
+//@   modifies ns.closed, G_closes(ns.Conn), G_isclosed(ns.Conn)
+//@   ensures old(ns.closed) ==> err == nil && G_closes(ns.Conn) == old(G_closes(ns.Conn))      :repeat_is_noop
+//@   ensures G_closes(ns.Conn) == old(G_closes(ns.Conn)) || G_closes(ns.Conn) == old(G_closes(ns.Conn)) + 1  :at_most_once
+//@   ensures !old(ns.closed) && ns.Conn != nil && !old(reportsClosed(ns.Conn)) ==> G_closes(ns.Conn) == old(G_closes(ns.Conn)) + 1   :first_close_closes_inner
+//@   ensures ns.closed                                                                          :closed_after
+//@   ensures ns.Conn == old(ns.Conn)
+
+//@ func (ns *SafeConnection) Closed
+//@   property C19
+//@   safe
+//@   pure
+//@   ensures result == ns.closed
+
+//@ go func isSafeConnection(c net.Conn) bool { _, ok := c.(*SafeConnection); return ok }
+//@ go func asSafeConnection(c net.Conn) *SafeConnection { s, _ := c.(*SafeConnection); return s }
+
+//@ func NewSafeConnection
+//@   property C19
+//@   safe
+//@   pure
+//@   ensures isSafeConnection(wrapped) ==> result == asSafeConnection(wrapped)                  :no_double_wrap
+//@   ensures !isSafeConnection(wrapped) ==> result != nil && spec_fresh(result) && !result.closed && result.Conn == wrapped   :fresh_open
